@@ -466,7 +466,7 @@ bool owns(const std::string& prop, const std::string& c) {
     if (prop == "C15") return c.rfind("tsan:", 0) == 0;
     if (prop != "C11") return false;
     static const std::set<std::string> s = {"not-linearizable", "mutation-during-delivery", "invoked-after-unsubscribe", "delivered-twice", "delivered-to-non-matching", "callback-outside-notify",
-                                            "notify-count", "exists-value", "depth-value", "router-deadlock", "op-incomplete", "terminate", "tulz-assert"};
+                                            "notify-count", "exists-value", "depth-value", "router-deadlock", "op-incomplete", "terminate", "tulz-assert", "unexpected-exception"};
     return s.count(c) > 0 || c.rfind("asan:", 0) == 0;
 }
 
@@ -555,7 +555,13 @@ void generate(sim::Rng& g, const std::string& prop, const std::string& tier, Jso
 void execute(const Json& program, const sim::Config& cfg, const std::string&) {
     prewarm();
     sim::set_deadlock_classifier([](const std::vector<sim::ThreadInfo>&) { return std::string("router-deadlock"); });
-    sim::run(cfg, [&] { body(program); });
+    sim::run(cfg, [&] {
+        try {
+            body(program);
+        } catch (const std::exception& e) {  // valid use of the API must not throw: an escaping exception is an outcome to report, not a harness error
+            sim::violation("unexpected-exception", std::string("exception escaped from tulz under valid use: ") + e.what());
+        }
+    });
     analyse(program);
 }
 
